@@ -942,4 +942,55 @@ func ruleASmart(w *World, r *Report) {
 	if n == 0 {
 		r.bad("A-SMART", "sites", w.pos(fn.Pos()), "no builder call for a step input found")
 	}
+	// modes never cross parentheses: the node dispatcher's call to itself
+	// (unwrapping a parenthesised group) passes flags that do not depend on
+	// the flags it was called with
+	g, gerr := w.grammar()
+	ng := 0
+	for _, d := range w.AllFuncs {
+		if gerr != nil || d.Parent() != nil || w.depthGuard(d) == nil || g.isParserMethod(d) || len(d.Params) < 3 {
+			continue
+		}
+		fp := d.Params[2]
+		eachInstr(d, false, func(_ *ssa.Function, in ssa.Instruction) {
+			c, ok := in.(*ssa.Call)
+			if !ok || c.Call.StaticCallee() != d || len(c.Call.Args) < 3 {
+				return
+			}
+			ng++
+			dep := false
+			seen := map[ssa.Value]bool{}
+			var walk func(v ssa.Value, k int)
+			walk = func(v ssa.Value, k int) {
+				if v == nil || seen[v] || k > 12 {
+					return
+				}
+				seen[v] = true
+				if v == ssa.Value(fp) {
+					dep = true
+				}
+				switch x := v.(type) {
+				case *ssa.BinOp:
+					walk(x.X, k+1)
+					walk(x.Y, k+1)
+				case *ssa.Phi:
+					for _, e := range x.Edges {
+						walk(e, k+1)
+					}
+				case *ssa.UnOp:
+					walk(x.X, k+1)
+				}
+			}
+			walk(c.Call.Args[2], 0)
+			key := fmt.Sprintf("group-flags%d", ng)
+			if dep {
+				r.bad("A-SMART", key, w.instrPos(c), "the content of a parenthesised group is built with the flags of the expression around it: (//b)[n] is then built as a filtered step (per-parent // expansion) and [n] no longer counts in document order")
+			} else {
+				r.ok("A-SMART", key, w.instrPos(c), "a parenthesised group is built with fresh flags")
+			}
+		})
+	}
+	if ng == 0 {
+		r.bad("A-SMART", "group-sites", "", "no self-call of the node dispatcher (group unwrapping) found")
+	}
 }
